@@ -77,6 +77,8 @@ pub struct Run {
     pub universe: usize,
     pub quiet: bool,
     pub last_export: HashMap<usize, Option<Value>>,
+    /// model block number -> keys written by that commit (for schedules emitted by the model)
+    pub written_by: HashMap<u64, Vec<String>>,
 }
 
 fn rname(r: usize) -> String {
@@ -105,6 +107,7 @@ impl Run {
             universe: spec.get("universe").and_then(|v| v.as_u64()).unwrap_or(12) as usize,
             quiet: false,
             last_export: HashMap::new(),
+            written_by: HashMap::new(),
         };
         let list_seed = spec.get("list_seed").and_then(|v| v.as_u64());
         for r in 0..nrep {
@@ -338,6 +341,10 @@ impl Run {
                 });
                 self.stores[r].lock().unwrap().fail_at.clear();
                 let writes = self.writes_since(r, from);
+                if let Some(bn) = op.get("bn").and_then(|v| v.as_u64()) {
+                    let keys: Vec<String> = self.stores[r].lock().unwrap().log[from..].iter().filter(|w| w.outcome != "failed").map(|w| w.key.clone()).collect();
+                    self.written_by.insert(bn, keys);
+                }
                 let mut x = json!({"writes": writes, "failplan": op.get("fail").cloned().unwrap_or(json!([])), "committed": committed});
                 if out.kind != "panic" {
                     let post = self.items_of(r);
@@ -541,6 +548,95 @@ impl Run {
                 }
                 let out = Outcome { kind: "ok", msg: String::new(), val: Value::Null };
                 self.emit("Synced", r, json!({"s": rname(s)}), &out, json!({"peer": rname(s), "rounds": rounds, "converged": converged}));
+            }
+            "copy_item" | "damage_item" => {
+                // an item addressed by the model: the block or pack written by commit number `bn`
+                let bn = op["bn"].as_u64().unwrap_or(0);
+                let kind = op["kind"].as_str().unwrap_or("delta");
+                let ext = if kind == "pack" { ".pack" } else { ".delta" };
+                let key = match self.written_by.get(&bn).and_then(|ks| ks.iter().find(|k| k.ends_with(ext))) {
+                    Some(k) => k.clone(),
+                    None => return,
+                };
+                if name == "copy_item" {
+                    let s = op["s"].as_u64().unwrap_or(0) as usize % self.reps.len();
+                    let src = self.items_of(s);
+                    if s == r || !src.contains_key(&key) || self.items_of(r).contains_key(&key) {
+                        return;
+                    }
+                    self.stores[r].lock().unwrap().own_mut().insert(key.clone(), src[&key].clone());
+                    let out = Outcome { kind: "ok", msg: String::new(), val: Value::Null };
+                    self.emit("Copy", r, json!({"s": rname(s), "key": tok(&key)}), &out, json!({}));
+                } else {
+                    let items = self.items_of(r);
+                    let keys: Vec<String> = items.keys().cloned().collect();
+                    let n = match keys.iter().position(|k| *k == key) {
+                        Some(n) => n,
+                        None => return,
+                    };
+                    let how = if op["how"].as_str() == Some("delete") { "delete" } else { "flip" };
+                    self.damage(r, &json!({"kind": how, "n": n, "pos": 77}));
+                }
+            }
+            "resolve_by" => {
+                // a leaf addressed by the model: by index and value
+                let o = op["o"].as_str().unwrap_or("").to_string();
+                let m = &self.reps[r].as_ref().unwrap().melda;
+                let mut leaves: Vec<String> = vec![];
+                if let Ok(w) = m.get_winner(&o) {
+                    leaves.push(w);
+                }
+                if let Ok(c) = m.get_conflicting(&o) {
+                    leaves.extend(c);
+                }
+                let idx = op["idx"].as_u64().unwrap_or(0);
+                let want_del = op["k"].as_str() == Some("d");
+                let mut pick: Vec<String> = vec![];
+                for l in &leaves {
+                    let pr = match crate::obs::parse_rev(l) {
+                        Some(p) => p,
+                        None => continue,
+                    };
+                    if pr.0 as u64 != idx {
+                        continue;
+                    }
+                    let is_del = pr.1 == "d";
+                    if want_del != is_del {
+                        continue;
+                    }
+                    if !want_del {
+                        if let Some(v) = op.get("val") {
+                            match m.get_value(&o, Some(l)) {
+                                Ok(obj) if obj.get("v") == Some(v) => {}
+                                Ok(obj) if obj.get("v").is_none() => {}
+                                _ => continue,
+                            }
+                        }
+                    }
+                    pick.push(l.clone());
+                }
+                if leaves.len() < 2 || pick.is_empty() {
+                    return;
+                }
+                pick.sort();
+                let leaf = pick[0].clone();
+                let out = call(pool, || m.resolve_as(&o, &leaf), |w| json!(w));
+                self.emit("Resolve", r, json!({"o": tok(&o), "leaf": leaf}), &out, json!({}));
+            }
+            "reload_until_set" => {
+                let mut hs: BTreeSet<String> = BTreeSet::new();
+                for bn in op["bns"].as_array().cloned().unwrap_or_default() {
+                    if let Some(k) = self.written_by.get(&bn.as_u64().unwrap_or(0)).and_then(|ks| ks.iter().find(|k| k.ends_with(".delta"))) {
+                        hs.insert(k.trim_end_matches(".delta").to_string());
+                    }
+                }
+                if hs.is_empty() {
+                    return;
+                }
+                let anchors: BTreeSet<DeltaId> = hs.iter().filter_map(|h| DeltaId::from(h).ok()).collect();
+                let m = &self.reps[r].as_ref().unwrap().melda;
+                let out = call(pool, || m.reload_until(&anchors), |_| Value::Null);
+                self.emit("ReloadUntil", r, json!({"heads": hs.iter().map(|h| tok(h)).collect::<Vec<_>>()}), &out, json!({}));
             }
             "deliver" => {
                 // deliver the items of `s` that `r` lacks one file at a time, in the k-th permutation
